@@ -43,7 +43,7 @@ BUILT = {
          "Every numeric reply over the swept space is decomposed into numeral, factor, divfactor and printed unit names; numeral x factor x product of the names (read back the way rink reads names) must equal the quantity computed from the registry dump.",
          "temperature-scale replies are C10's; float-valued units skipped", "3/C06"),
  "C12": ("exploration", "exhaustive enumeration of all 5040 permutations of dependency-closed definition subsets, bundled-database reorders/rotations, and all file-split assignments through the real binary, comparing whole-registry dumps",
-         "All permutations of dependency-closed 7-subsets of a 24-definition pool, all 5040 text orders of 7 snippets x 36 splits into files parsed as files, the bundled database reversed/sorted/dependency-reversed/rotated, and a 6-definition extension set split over two files in all assignments x 4 file endings (real `rink --dump`) must yield byte-identical registry dumps and identical error multisets.",
+         "All permutations of dependency-closed 7-subsets of a 31-definition pool, all 5040 text orders of 7 snippets x 36 splits into files parsed as files, the bundled database reversed/sorted/dependency-reversed/rotated, and a 6-definition extension set split over two files in all assignments x 4 file endings (real `rink --dump`) must yield byte-identical registry dumps and identical error multisets.",
          "duplicated names in the shipped file are reduced to their last occurrence first (premise of the statement)", "3/C12"),
  "C13": ("exploration", "deviation-bounded exhaustive enumeration of file mutations, definition token soups, dependency cycles/chains, malformed substances, JSON truncations/edits and date-pattern soups against the real loaders under watchdog",
          "0 and every single deviation of the bundled files, every definitions file of <=4/5 tokens, cycles of length 1..5000 through eleven namespace shapes, chains to 10000, zero-valued substance properties in 10 representations, exponent boundary values in definitions, every truncation and field edit of the currency JSON: the load must terminate without panic/abort, report what the harness can prove is a problem, and leave a usable context.",
